@@ -189,6 +189,12 @@ func genConcurrentCase(rng *rand.Rand, cfg, rid string, idx int) *tcase {
 		}
 		return tc
 	}
+	if idx%5 == 2 {
+		// a highly regular batch (compresses 100x and more), tagged with the request id
+		tc := genRegularCase(rng, cfg, idx, []int{0, 0, 1, 2}[rng.Intn(4)])
+		tc.Reg.RID = rid
+		return tc
+	}
 	tc := genMapCase(rng, cfg, idx)
 	// size classes: ~30, ~200, ~1000, ~4000 datapoints
 	target := []int{20 + rng.Intn(40), 120 + rng.Intn(200), 600 + rng.Intn(900), 2500 + rng.Intn(3000)}[rng.Intn(4)]
@@ -227,6 +233,7 @@ func (c *checker) concurrent(rounds int) {
 		byName[cfg.Name] = cfg
 	}
 	var units []*fwdUnit
+	abandoned := false
 	for _, name := range concurrentCfgNames {
 		u, err := newFwdUnit(byName[name], srv.URL, 1+len(units)%3, 50*time.Millisecond)
 		if err != nil {
@@ -234,7 +241,12 @@ func (c *checker) concurrent(rounds int) {
 			continue
 		}
 		units = append(units, u)
-		defer u.close()
+		// (a forwarder whose flush is still stuck behind the watchdog must not be shut down under it)
+		defer func() {
+			if !abandoned {
+				u.close()
+			}
+		}()
 	}
 	rngs := make([]*rand.Rand, len(units))
 	for i := range units {
@@ -291,6 +303,7 @@ func (c *checker) concurrent(rounds int) {
 					sends = append(sends, sendRec{it: it, via: "forwarder", status: q.Status, err: q.Err})
 				}
 				if len(reqs) >= 1 {
+					c.noteRegular(tc, reqs[0].Enc, reqs[0].Body, "concurrent")
 					it.Path, it.Enc, it.Body = reqs[0].Path, reqs[0].Enc, reqs[0].Body
 					fresh = append(fresh, it)
 				} else {
@@ -334,6 +347,7 @@ func (c *checker) concurrent(rounds int) {
 		close(start)
 		wg.Wait()
 		if stuck {
+			abandoned = true
 			r.Inconclusive("forwarder-flush-watchdog")
 			return
 		}
@@ -343,6 +357,14 @@ func (c *checker) concurrent(rounds int) {
 			pool = pool[len(pool)-60:]
 		}
 	}
+}
+
+// famOf marks violations that concern a highly regular batch.
+func famOf(it *item) string {
+	if it != nil && it.tc != nil && it.tc.Reg != nil {
+		return ":regular"
+	}
+	return ""
 }
 
 func sizeClass(n int) string {
@@ -379,7 +401,7 @@ func (c *checker) judgeConcurrent(round int, sends []sendRec, cap *capture) {
 		if ok2xx(s.status) {
 			want2xx[s.it.RID]++
 		} else {
-			r.Violation(fmt.Sprintf("concurrent-valid-body-rejected:%s:%s", s.it.Path, s.it.Enc),
+			r.Violation(fmt.Sprintf("concurrent-valid-body-rejected:%s:%s%s", s.it.Path, s.it.Enc, famOf(s.it)),
 				fmt.Sprintf("round %d, %d requests in flight: a valid forwarder body (request id %s, config %s, Content-Encoding %q, %d bytes, sent by %s) was answered %d %s", round, len(sends), s.it.RID, s.it.Cfg, s.it.Enc, len(s.it.Body), s.via, s.status, s.err), replay(s.it))
 		}
 		r.Nontrivial(fmt.Sprintf("concurrent:%s:%s:%s:%s", s.via, s.it.Kind, s.it.Enc, sizeClass(len(s.it.Body))))
@@ -433,7 +455,7 @@ func (c *checker) judgeConcurrent(round int, sends []sendRec, cap *capture) {
 		if it.Kind == "map" {
 			for _, m := range gotMaps[rid] {
 				if d := ref.Diff(m, it.wantMap, noTS); len(d) > 0 {
-					r.Violation("concurrent-map-differs:"+diffClass(d[0]), fmt.Sprintf("round %d, %d requests in flight: the map dispatched for request id %s (config %s, %d series, %d body bytes) differs from what was sent: %s", round, len(sends), rid, it.Cfg, len(it.wantMap), len(it.Body), strings.Join(first(d, 5), " | ")), replay(it))
+					r.Violation("concurrent-map-differs:"+diffClass(d[0])+famOf(it), fmt.Sprintf("round %d, %d requests in flight: the map dispatched for request id %s (config %s, %d series, %d body bytes) differs from what was sent: %s", round, len(sends), rid, it.Cfg, len(it.wantMap), len(it.Body), strings.Join(first(d, 5), " | ")), replay(it))
 				}
 			}
 		} else {
